@@ -127,6 +127,17 @@ func genC03(t *rapid.T) c03Case {
 		}
 		c.W.Ents = append(c.W.Ents, e)
 	}
+	if rapid.IntRange(0, 4).Draw(t, "same-serial-siblings") == 0 {
+		// two certificates under one issuer configured with the very same serial number (a configured serial is what it is)
+		v := int64(rapid.SampledFrom([]int{1, 4711, 1 << 20}).Draw(t, "sibling-serial"))
+		if c.W.Ents[0].Serial != nil && rapid.Bool().Draw(t, "sibling-serial-as-issuer") {
+			v = *c.W.Ents[0].Serial
+		}
+		for k := 0; k < 2; k++ {
+			sib := core.Entity{File: fmt.Sprintf("sib/s%d.yaml", k), Subject: []core.RDN{{Key: "CN", Value: fmt.Sprintf("sibling %d", k)}}, Issuer: c.W.Ents[0].EffAlias(), Serial: &v}
+			c.W.Ents = append(c.W.Ents, sib)
+		}
+	}
 	c.Profile = genAcceptingProfile(t, c.W.Ents[0].Subject, "p")
 	// the profile may also contribute a validity period and extensions (merging must leave subject, serial and unique ids alone)
 	if rapid.Bool().Draw(t, "profile-validity") {
